@@ -127,6 +127,45 @@ macro_rules! box_list {
     };
 }
 
+/// no drop glue, Clone but NOT Copy, with an observable clone: `box_arr![x; N]` must build its N values with Clone::clone
+/// (x itself may be moved into one slot), never by copying bits
+#[cfg(feature = "alloc")]
+pub struct Cq(pub u32);
+#[cfg(feature = "alloc")]
+pub static mut CQ_CLONES: usize = 0;
+#[cfg(feature = "alloc")]
+impl Clone for Cq {
+    fn clone(&self) -> Cq {
+        unsafe { CQ_CLONES += 1 };
+        Cq(self.0 ^ 0x5a5a)
+    }
+}
+
+// @gen macro=box_repeat_clone name=c20_box_arr_repeat_clone props=C20 features=alloc quick=U0,0;U1,1;U3,3;U8,8 thorough=U2,2;U16,16
+macro_rules! box_repeat_clone {
+    ($name:ident, $N:ty, $n:expr) => {
+        #[cfg(feature = "alloc")]
+        #[kani::proof]
+        #[kani::unwind(20)]
+        fn $name() {
+            let v: u32 = kani::any();
+            let mut evals = 0usize;
+            let a = box_arr![{ evals += 1; Cq(v) }; $N];
+            let clones_a = unsafe { CQ_CLONES };
+            let b = box_arr![Cq(v); $n];
+            let clones_b = unsafe { CQ_CLONES } - clones_a;
+            kani::assert(evals == 1, "C20.box_arr![x; N] (Clone, not Copy): x is evaluated exactly once");
+            kani::assert(type_len(&*a) == $n && type_len(&*b) == $n, "C20.box_arr![x; N] (Clone, not Copy): exactly N elements");
+            kani::assert(clones_a + 1 >= $n && clones_a <= $n && clones_b + 1 >= $n && clones_b <= $n, "C20.box_arr![x; N] (Clone, not Copy): the N values are made by Clone::clone (x itself may fill one slot), not by copying bits");
+            let i: usize = kani::any();
+            if i < $n {
+                kani::assert((a[i].0 == v || a[i].0 == v ^ 0x5a5a) && (b[i].0 == v || b[i].0 == v ^ 0x5a5a), "C20.box_arr![x; N] (Clone, not Copy): every element is x or a clone of x");
+            }
+            kani::cover!(true, "end reachable");
+        }
+    };
+}
+
 // @gen macro=box_repeat name=c20_box_arr_repeat props=C20 features=alloc quick=U0,0;U3,3;U16,16 thorough=U1,1;U64,64;U256,256
 macro_rules! box_repeat {
     ($name:ident, $N:ty, $n:expr) => {
